@@ -223,6 +223,55 @@ func (v *view) eligibleUnplaced() (all, notOversized []uint64) {
 	return
 }
 
+// reliefNeedsSpace is a SUFFICIENT condition for "more space is needed in this cycle" through relief:
+// an in-sync shard is over the lowest head-series threshold (1.1 x limit), the targets on it that the
+// duplicate/vanished clean-up cannot take away add up to more than the limit, none of its targets is
+// oversized (relief gives up on such a shard), only targets relief may move (normal, healthy, scraped three
+// times) are counted, and by the loads reported in this cycle none of its
+// targets fits any other in-sync shard (room only shrinks during a cycle). Relief can then move nothing
+// and the shard's excess is space the replica lacks.
+func (v *view) reliefNeedsSpace() (int, bool) {
+	opt := v.c.Opt
+	if opt.DisableAlleviate || opt.MaxHead == 0 {
+		return -1, false
+	}
+	for i := 0; i < v.n; i++ {
+		if !v.insync[i] || len(v.rep.Shards[i].Report) == 0 {
+			continue
+		}
+		if v.head[i] < int64(float64(opt.MaxHead)*1.1) {
+			continue
+		}
+		var safe int64
+		bad, fits := false, false
+		for h, t := range v.rep.Shards[i].Report {
+			if (opt.MaxHead != 0 && t.Series > opt.MaxHead) || t.Series > opt.MaxProc || t.Total > opt.MaxProc {
+				bad = true
+			}
+			elsewhere := false
+			for j := 0; j < v.n; j++ {
+				if j == i {
+					continue
+				}
+				if _, ok := v.rep.Shards[j].Report[h]; ok && v.reach[j] {
+					elsewhere = true
+				}
+				if v.insync[j] && v.head[j]+t.Series < opt.MaxHead && v.proc[j]+t.Total < opt.MaxProc {
+					fits = true
+				}
+			}
+			// only targets relief may move count towards the shard's excess: normal, healthy, scraped 3 times
+			if v.active[h] && !elsewhere && t.State == "" && t.Health == "up" && t.Times >= 3 {
+				safe += t.Series
+			}
+		}
+		if !bad && !fits && safe > opt.MaxHead {
+			return i, true
+		}
+	}
+	return -1, false
+}
+
 // judgeC04: placements fit; oversized targets neither assigned nor a reason to scale up.
 func judgeC04(v *view, o *Obs, res *core.CaseResult) {
 	opt := v.c.Opt
@@ -411,6 +460,10 @@ func judgeC07(v *view, o *Obs, res *core.CaseResult) {
 		}
 	}
 	_, notOver := v.eligibleUnplaced()
+	reliefShard, reliefNeed := v.reliefNeedsSpace()
+	if reliefNeed {
+		res.AddStat("cycles_in_which_relief_needs_space", 1)
+	}
 	for k, s := range v.scales {
 		a := s.Arg
 		res.AddStat("scale_requests", 1)
@@ -430,6 +483,9 @@ func judgeC07(v *view, o *Obs, res *core.CaseResult) {
 		if n <= opt.Max {
 			if a < L {
 				res.Violate("C07/below-last-needed/"+which, "requested %d shards although shard %d (position %d) is out of sync, holds or was given a target, or is not idle long enough (current %d)", a, L-1, L, n)
+			}
+			if a < n && reliefNeed {
+				res.Violate("C07/shrink-while-relief-needs-space/"+which, "requested %d < current %d although shard %d is over the head-series threshold (%d, limit %d) and none of its targets fits any other shard: more space is needed in this cycle", a, n, reliefShard, v.head[reliefShard], opt.MaxHead)
 			}
 			if a < n && (opt.IdleMin == 0 || len(notOver) > 0) {
 				res.Violate("C07/shrink-when-forbidden/"+which, "requested %d < current %d although max-idle-time is %d min and %d placeable targets are still unassigned", a, n, opt.IdleMin, len(notOver))
